@@ -250,15 +250,22 @@ def recoverBatch (invalid : BranchId → List Nat) (st : State) (batch : List (N
   recoverScoped invalid (batch.length + 1) st batch
 
 /-- `RecoveryManager.Resurrect`: rebuild the in-memory state from what is on disk (after a restart, or when
-    `recovery` is re-entered after an error): addresses below the key counts, ReportFound(count-1), the unspent
-    credits as watched outpoints — `recovery()` passes `TxStore.UnspentOutputs` (wallet.go:732), which omits leased
-    outputs and outputs spent by an unmined transaction (`hidden`), unlike `activeData` (`OutputsToWatch`).
+    `recovery` is re-entered after an error): addresses below the key counts, ReportFound(count-1), and as watched
+    outpoints every output `TxStore.OutputsToWatch` returns (wallet.go `recovery()`, since 50a099b): all unspent mined
+    credits INCLUDING leased ones and ones spent by an unmined transaction.
     The horizon is NOT restored (it restarts at the number of invalid children seen). -/
 def resurrectBranch (window : Nat) (inv : List Nat) (count : Nat) : Branch :=
   let b := (List.range count).foldl (fun b i => if inv.contains i then b.markInvalid i else b.addAddr i) (Branch.new window)
   if count > 0 then b.reportFound (count - 1) else b
 
 def resurrect (invalid : BranchId → List Nat) (st : State) : State :=
+  { st with
+    branches := (branchIds st.scopes).map (fun k => (k, resurrectBranch st.window (invalid k) (st.nextOf k)))
+    watched := (st.credits.filter (fun c => !c.spent)).map (·.op) }
+
+/-- `Resurrect` as `recovery()` called it BEFORE 50a099b: with `TxStore.UnspentOutputs`, which omits leased outputs
+    and outputs spent by an unmined transaction (`hidden`).  Kept for the counter-example theorem only. -/
+def resurrectOld (invalid : BranchId → List Nat) (st : State) : State :=
   { st with
     branches := (branchIds st.scopes).map (fun k => (k, resurrectBranch st.window (invalid k) (st.nextOf k)))
     watched := (st.credits.filter (fun c => !c.spent && !hidden st c.op)).map (·.op) }
